@@ -744,6 +744,8 @@ fn parse_air(label: &str) -> Option<TAir> {
         ["add", r] => TAir::Add { rows: num(r, "r")? },
         ["sub", r] => TAir::Sub { rows: num(r, "r")? },
         ["pv", r] => TAir::Pv { rows: num(r, "r")? },
+        ["addrl", r] => TAir::AddRl { rows: num(r, "r")? },
+        ["per", r] => TAir::Per { rows: num(r, "r")? },
         _ => return None,
     };
     (air.label() == label).then_some(air)
@@ -1018,6 +1020,9 @@ mod kc {
     kit_cfg!(gl);
     kit_cfg!(kbzk);
     kit_cfg!(kbzkh);
+    kit_cfg!(bbc);
+    kit_cfg!(kba);
+    kit_cfg!(kbzkhc);
 }
 
 /// Larger instances for the thorough tier (not in the kit's list; built with `kit::probe_shape`):
@@ -1057,6 +1062,9 @@ fn run_kit_shape(shape: &dyn Shape, seed: u64) -> Vec<CaseResult> {
         x if x == cfgs::gl::CFG_NAME => kc::gl::run(&name, &spec, shape, seed),
         x if x == cfgs::kbzk::CFG_NAME => kc::kbzk::run(&name, &spec, shape, seed),
         x if x == cfgs::kbzkh::CFG_NAME => kc::kbzkh::run(&name, &spec, shape, seed),
+        x if x == cfgs::bbc::CFG_NAME => kc::bbc::run(&name, &spec, shape, seed),
+        x if x == cfgs::kba::CFG_NAME => kc::kba::run(&name, &spec, shape, seed),
+        x if x == cfgs::kbzkhc::CFG_NAME => kc::kbzkhc::run(&name, &spec, shape, seed),
         other => Err(format!("unknown configuration {other}")),
     });
     match r {
